@@ -28,6 +28,7 @@ mod verif_kani {
 
     // switching to the shared representation keeps the total
     #[kani::proof]
+    #[kani::unwind(2)]
     fn shared_cloned_keeps_total() {
         let total = any_total();
         let mut sw = stopwatch_with(total);
@@ -40,6 +41,7 @@ mod verif_kani {
 
     // an owned guard adds its span exactly once when dropped, and the stopwatch sees it (aliasing)
     #[kani::proof]
+    #[kani::unwind(2)]
     fn owned_guard_drop_adds_span_once() {
         let total = any_total();
         let span = any_dur();
@@ -51,6 +53,7 @@ mod verif_kani {
     }
 
     #[kani::proof]
+    #[kani::unwind(2)]
     fn owned_guard_stop_returns_span_and_adds_once() {
         let total = any_total();
         let span = any_dur();
@@ -62,6 +65,7 @@ mod verif_kani {
     }
 
     #[kani::proof]
+    #[kani::unwind(2)]
     fn owned_guard_discard_adds_nothing() {
         let total = any_total();
         let mut sw = stopwatch_with(total);
@@ -71,6 +75,7 @@ mod verif_kani {
     }
 
     #[kani::proof]
+    #[kani::unwind(2)]
     fn owned_guard_overwrite_replaces_total() {
         let total = any_total();
         let span = any_dur();
@@ -82,6 +87,7 @@ mod verif_kani {
 
     // several concurrently live owned guards interact only through the total
     #[kani::proof]
+    #[kani::unwind(2)]
     fn two_live_owned_guards_both_count() {
         let total = any_total();
         let (s1, s2) = (any_dur(), any_dur());
@@ -95,6 +101,7 @@ mod verif_kani {
 
     // documented: clear() empties the stopwatch, but guards that are still live keep writing to THIS stopwatch
     #[kani::proof]
+    #[kani::unwind(2)]
     fn clear_with_live_owned_guard() {
         let total = any_total();
         let span = any_dur();
@@ -108,6 +115,7 @@ mod verif_kani {
 
     // a borrowed guard on a stopwatch that is already shared goes through the same cell
     #[kani::proof]
+    #[kani::unwind(2)]
     fn borrowed_guard_on_shared_stopwatch() {
         let total = any_total();
         let (s1, s2) = (any_dur(), any_dur());
